@@ -259,6 +259,92 @@ var badFrames = []string{`garbage`, `[]`, `5`, `"x"`, `{}`, `{"id":-1,"method":"
 	`{"id":81,"method":"version","params":{"protocol":5}}`, `{"id":82,"method":"version","params":{"protocol":"1.x.3"}}`, `{"id":83,"method":"version","params":{"protocol":"999.0.0"}}`, `{"id":84,"method":"call.t.a.set","params":{"a":`, "\x00\xff", `{"id":85}`, `{"id":86,"method":null}`}
 var badToken = []string{`garbage`, `{"token":}`, `[]`, `{"tid":5}`, `5`, `{"token":{"a":1},"tid":[1]}`}
 
+// Values of the two kinds, used to build malformed payloads by construction: a
+// message with any number of well-formed parts and exactly one malformed part
+// is malformed as a whole.
+var goodValues = []string{`1`, `"s"`, `null`, `true`, `-0.5`, `{"rid":"t.a"}`, `{"rid":"t.b","soft":true}`, `{"data":{"a":[1]}}`, `{"data":[1,{"rid":"x"}]}`, `""`}
+var badValues = []string{`[1]`, `{"x":1}`, `{}`, `{"action":"x"}`, `{"rid":""}`, `{"rid":"t.*"}`, `{"rid":"t..a"}`, `{"rid":5}`, `{"rid":"t.b","data":1}`, `{"rid":"t.b","action":"delete"}`,
+	`{"action":"delete","data":1}`, `[]`, `{"rid":"t.>"}`, `{"rid":".t"}`, `{"rid":"t.a."}`, `{"soft":true}`, `{"rid":null}`}
+
+// genBadObject builds a JSON object of 0-3 well-formed members and one malformed
+// member at a drawn position. withDelete allows the delete action among the
+// well-formed ones (change events only).
+func (g *Gen) genBadObject(withDelete bool) string {
+	n := rapid.IntRange(0, 3).Draw(g.t, "ngood")
+	at := rapid.IntRange(0, n).Draw(g.t, "badat")
+	keys := []string{"a", "b", "x", "q", "r", "zz", "yy", "k1"}
+	var ms []string
+	used := map[string]bool{}
+	key := func() string {
+		for {
+			k := g.sample("okey", keys)
+			if !used[k] {
+				used[k] = true
+				return k
+			}
+		}
+	}
+	for i := 0; i <= n; i++ {
+		if i == at {
+			ms = append(ms, `"`+key()+`":`+g.sample("badval", badValues))
+		}
+		if i < n {
+			v := g.sample("goodval", goodValues)
+			if withDelete && rapid.IntRange(0, 5).Draw(g.t, "del") == 0 {
+				v = `{"action":"delete"}`
+			}
+			ms = append(ms, `"`+key()+`":`+v)
+		}
+	}
+	return "{" + strings.Join(ms, ",") + "}"
+}
+
+// genBadArray builds a JSON array of 0-3 well-formed values and one malformed one.
+func (g *Gen) genBadArray() string {
+	n := rapid.IntRange(0, 3).Draw(g.t, "ngood")
+	at := rapid.IntRange(0, n).Draw(g.t, "badat")
+	var ms []string
+	for i := 0; i <= n; i++ {
+		if i == at {
+			ms = append(ms, g.sample("badval", badValues))
+		}
+		if i < n {
+			ms = append(ms, g.sample("goodval", goodValues))
+		}
+	}
+	return "[" + strings.Join(ms, ",") + "]"
+}
+
+// drawBad returns a payload of the fixed pool, or (half of the time, where the
+// class has a construction) a constructed one.
+func (g *Gen) drawBad(class string, pool []string) string {
+	if rapid.Bool().Draw(g.t, "constructed") {
+		switch class {
+		case "event/change":
+			return `{"values":` + g.genBadObject(true) + `}`
+		case "event/add":
+			return `{"idx":0,"value":` + g.sample("badval", badValues) + `}`
+		case "get/answer":
+			if rapid.Bool().Draw(g.t, "coll") {
+				return `{"result":{"collection":` + g.genBadArray() + `}}`
+			}
+			return `{"result":{"model":` + g.genBadObject(false) + `}}`
+		case "query/answer":
+			switch rapid.IntRange(0, 3).Draw(g.t, "qkind") {
+			case 0:
+				return `{"result":{"model":` + g.genBadObject(false) + `}}`
+			case 1:
+				return `{"result":{"collection":` + g.genBadArray() + `}}`
+			case 2:
+				return `{"result":{"events":[{"event":"change","data":{"values":` + g.genBadObject(true) + `}}]}}`
+			default:
+				return `{"result":{"events":[{"event":"add","data":{"idx":0,"value":` + g.sample("badval", badValues) + `}}]}}`
+			}
+		}
+	}
+	return g.sample("ipayload", pool)
+}
+
 // opInject injects one malformed message.
 func (g *Gen) opInject(conns []*Client, pend []PendingView) {
 	w := g.w
@@ -288,7 +374,7 @@ func (g *Gen) opInject(conns []*Client, pend []PendingView) {
 			if class != "event/wrongkind" && d != nil {
 				// valid-looking bad payloads only make sense on the matching kind; on the other kind they are inapplicable anyway
 			}
-			w.Exec(Op{K: "rawev", S: "event." + name + "." + ev, P: g.sample("ipayload", pool), Key: "inject:" + class})
+			w.Exec(Op{K: "rawev", S: "event." + name + "." + ev, P: g.drawBad(class, pool), Key: "inject:" + class})
 		}})
 	}
 	cs = append(cs, choice{3, func() {
@@ -313,9 +399,9 @@ func (g *Gen) opInject(conns []*Client, pend []PendingView) {
 			op := Op{K: "ans", S: pv.P.Subject, Q: pv.P.Query, A: actorEnc(pv.Actor), N: pv.Ord, O: "raw"}
 			switch {
 			case strings.HasPrefix(pv.P.Subject, "_EVQ."):
-				op.P, op.Key = g.sample("ianswer", badQueryAnswer), "inject:query/answer"
+				op.P, op.Key = g.drawBad("query/answer", badQueryAnswer), "inject:query/answer"
 			case strings.HasPrefix(pv.P.Subject, "get."):
-				op.P = g.sample("ianswer", badGetAnswer)
+				op.P = g.drawBad("get/answer", badGetAnswer)
 				op.Key = "inject:get/answer"
 				if g.isRefetch(pv) {
 					op.Key = "inject:refetch/answer"
